@@ -522,7 +522,9 @@ pub fn parse(s: &str, opts: ParseOpts) -> Result<RRule, String> {
     let mut seen: Vec<&str> = vec![];
     let mut arg_index_used: Vec<u8> = vec![];
     for (k, v) in &toks {
-        if seen.contains(&k.as_str()) {
+        // (the daemon checks "specified twice" per key, and has no such check for eavesdrop: the
+        // last one wins)
+        if k != "eavesdrop" && seen.contains(&k.as_str()) {
             return Err(format!("key {k} specified twice"));
         }
         seen.push(k.as_str());
